@@ -125,6 +125,18 @@ theorem unaO_W (una : U32) (l : List SegO) (g : Ghost) (F : Nat → Nat) (h : W 
       exact ih _ h1.recycle
     · exact h
 
+theorem dropAckedO_W (l : List SegO) (g : Ghost) (F : Nat → Nat) (h : W g (fun id => cnt id l + F id)) :
+    W (dropAckedO l g).g (fun id => cnt id (dropAckedO l g).l + F id) := by
+  induction l generalizing g with
+  | nil => exact h
+  | cons x rest ih =>
+    unfold dropAckedO
+    split
+    · have h1 : W g (fun id => oc x.buf id + (cnt id rest + F id)) :=
+        h.congr (fun id => by simp only [cnt]; omega)
+      exact ih _ h1.drop
+    · exact h
+
 theorem ackLoopO_W (sn : U32) (l : List SegO) (g : Ghost) (F : Nat → Nat) (h : W g (fun id => cnt id l + F id)) :
     W (ackLoopO sn l g).g (fun id => cnt id (ackLoopO sn l g).l + F id) := by
   induction l generalizing g F with
